@@ -73,6 +73,14 @@ def run(ctx):
             o = {"code": b1, "bcs": i % 2 == 0, "ccs": True, "level": 0, "conc": conc, "legacy": False, "handler": False}
             wcases.append({"id": len(wcases) + 1, "input": {"family": "text", "len": pre + 3 * B + 5, "seed": i}, "opts": o, "calls": calls, "hist": -1,
                            "reconf": True})
+    # a life that met a (transient) sink failure, abandoned by Reset or closed and Reset: the next life is that of a new Writer
+    for i, (k, closed) in enumerate([(k, cl) for k in (1, 2, 3, 5, 7) for cl in (False, True)]):
+        for conc in (1, 4):
+            calls = [{"op": "write", "n": 3 * B + 5}] + ([{"op": "close"}] if closed else []) + [{"op": "reset"}, {"op": "write", "n": B + 7}, {"op": "flush"},
+                                                                                              {"op": "write", "n": 100}, {"op": "close"}]
+            o = {"code": 4, "bcs": i % 2 == 0, "ccs": True, "level": 0, "conc": conc, "legacy": False, "handler": False}
+            wcases.append({"id": len(wcases) + 1, "input": {"family": "text", "len": 4 * B + 112, "seed": 70 + i}, "opts": o, "calls": calls, "hist": -1,
+                           "failAt": k, "once": True})
     wrecs, faults = fl.shard_run(b, "frame-write", wcases, d, "w", extra=("--watchdog", "30s"))
     # a case without a record killed its process (a panic in a library goroutine cannot be recovered by the caller)
     missing = [c for c in wcases if c["id"] not in wrecs]
